@@ -52,8 +52,23 @@ Definition decoded_subs (encs : list enc_sample) : list (list ssp) :=
   if existsb (fun e => match e_ssps e with [] => false | _ => true end) encs then map e_ssps encs else [].
 
 (* ---------------------------------------------------------------- box surgery *)
-Inductive tkind := TSaiz | TSaio | TSenc | TUuidSenc | TUuidOther | TTrun | TOther.
+(* sbgp / sgpd carry their grouping type (a four-character code as its 32-bit value): sample groups are protection
+   signalling only when the grouping type is seig *)
+Inductive tkind := TSaiz | TSaio | TSenc | TUuidSenc | TUuidOther | TTrun | TOther
+                 | TSbgp (grouping_type : N) | TSgpd (grouping_type : N).
 Record tbox := mkT { tk : tkind; tsize : N; tid : N }.
+
+Definition cc_seig : N := 1936025959.   (* "seig" *)
+
+(* which traf children are protection signalling (the property text: "every box that is not protection signalling
+   ... present and unchanged"): the auxiliary-information boxes, the senc box in both spellings, and the sample
+   group boxes of grouping type seig (CencSampleEncryptionInformationGroupEntry) - not roll, rap, sync, alst, ... *)
+Definition is_protection_box (k : tkind) : bool :=
+  match k with
+  | TSaiz | TSaio | TSenc | TUuidSenc => true
+  | TSbgp gt | TSgpd gt => gt =? cc_seig
+  | TUuidOther | TTrun | TOther => false
+  end.
 
 (* func (t *TrafBox) RemoveEncryptionBoxes() uint64 — text after the fix: a uuid box that is not a PIFF senc
    box is kept *)
@@ -64,6 +79,20 @@ Fixpoint remove_encryption_boxes (ch : list tbox) : list tbox * N :=
       let '(rest, n) := remove_encryption_boxes t in
       match tk b with
       | TSaiz | TSaio | TSenc | TUuidSenc => (rest, tsize b + n)
+      | TUuidOther | TTrun | TOther | TSbgp _ | TSgpd _ => (b :: rest, n)    (* `default:` keeps sbgp / sgpd *)
+      end
+  end.
+
+(* a variant that was proposed as a repair ("the sample group boxes of an encrypted traf carry the seig groups"):
+   `case *SbgpBox, *SgpdBox:` removes and counts every sample group box WITHOUT looking at the grouping type.  Not
+   the text of the code; kept to state that it breaks the property (C06_drop_all_groups_refuted) *)
+Fixpoint remove_encryption_boxes_allgroups (ch : list tbox) : list tbox * N :=
+  match ch with
+  | [] => ([], 0)
+  | b :: t =>
+      let '(rest, n) := remove_encryption_boxes_allgroups t in
+      match tk b with
+      | TSaiz | TSaio | TSenc | TUuidSenc | TSbgp _ | TSgpd _ => (rest, tsize b + n)
       | TUuidOther | TTrun | TOther => (b :: rest, n)
       end
   end.
@@ -77,7 +106,7 @@ Fixpoint remove_encryption_boxes_pinned (ch : list tbox) : list tbox * N :=
       match tk b with
       | TSaiz | TSaio | TSenc | TUuidSenc => (rest, tsize b + n)
       | TUuidOther => (rest, n)
-      | TTrun | TOther => (b :: rest, n)
+      | TTrun | TOther | TSbgp _ | TSgpd _ => (b :: rest, n)
       end
   end.
 
